@@ -14,6 +14,22 @@ Close Scope N_scope.
 Open Scope nat_scope.
 Open Scope list_scope.
 
+(** structural equality of trees *)
+Fixpoint tree_eqb (a b : tree) : bool :=
+  match a, b with
+  | Tok k x, Tok k' y => sk_eqb k k' && list_eqb x y
+  | Node k cs, Node k' ds =>
+      sk_eqb k k' &&
+      (fix go (l : list tree) (m : list tree) : bool :=
+         match l, m with
+         | [], [] => true
+         | c :: r, d :: r' => tree_eqb c d && go r r'
+         | _, _ => false
+         end) cs ds
+  | _, _ => false
+  end.
+Definition tree_eqb_shallow := tree_eqb.
+
 (** * Accessors *)
 Definition kind_in (k : SyntaxKind) (ks : list SyntaxKind) : bool := existsb (sk_eqb k) ks.
 Definition node_children (t : tree) : list tree := filter is_node (children_of t).
@@ -57,7 +73,9 @@ Fixpoint frame_eqb (a b : frame) : bool :=
   end.
 
 (** * The analysis *)
-Record kstate := { stk : list (option SyntaxKind * frame); kenv : list (option frame) }.
+(** a checkpoint local holds (stack depth at the checkpoint, children emitted at that depth since) *)
+Definition cpval := option (nat * frame).
+Record kstate := { stk : list (option SyntaxKind * frame); kenv : list cpval }.
 Fixpoint stack_eqb (a b : list (option SyntaxKind * frame)) : bool :=
   match a, b with
   | [], [] => true
@@ -65,9 +83,9 @@ Fixpoint stack_eqb (a b : list (option SyntaxKind * frame)) : bool :=
       (match k, k' with Some x, Some y => sk_eqb x y | None, None => true | _, _ => false end) && frame_eqb f f' && stack_eqb a' b'
   | _, _ => false
   end.
-Definition oframe_eqb (a b : option frame) : bool :=
-  match a, b with Some x, Some y => frame_eqb x y | None, None => true | _, _ => false end.
-Fixpoint kenv_eqb (a b : list (option frame)) : bool :=
+Definition oframe_eqb (a b : cpval) : bool :=
+  match a, b with Some (d, x), Some (d', y) => Nat.eqb d d' && frame_eqb x y | None, None => true | _, _ => false end.
+Fixpoint kenv_eqb (a b : list cpval) : bool :=
   match a, b with
   | [], [] => true
   | x :: a', y :: b' => oframe_eqb x y && kenv_eqb a' b'
@@ -78,14 +96,28 @@ Fixpoint dedup_k (l : list kstate) : list kstate :=
   match l with [] => [] | x :: r => if existsb (kstate_eqb x) r then dedup_k r else x :: dedup_k r end.
 Definition ksubset (a b : list kstate) : bool := forallb (fun x => existsb (kstate_eqb x) b) a.
 
-Record kouts := { k_norm : list (option frame * kstate); k_brk : list kstate; k_ret : list kstate;
+Record kouts := { k_norm : list (cpval * kstate); k_brk : list kstate; k_ret : list kstate;
                   k_acc : list (SyntaxKind * frame) }.       (* k_acc: (node kind, its children) at every finish_node *)
 Definition kouts_nil : kouts := {| k_norm := []; k_brk := []; k_ret := []; k_acc := [] |}.
 Definition kouts_app (a b : kouts) : kouts :=
   {| k_norm := k_norm a ++ k_norm b; k_brk := k_brk a ++ k_brk b; k_ret := k_ret a ++ k_ret b; k_acc := k_acc a ++ k_acc b |}.
 
-Definition kenv_get (en : list (option frame)) (x : nat) : option frame := match nth_error en x with Some v => v | None => None end.
-Fixpoint kenv_set (en : list (option frame)) (x : nat) (v : option frame) : list (option frame) :=
+Fixpoint dedup_vs (l : list (cpval * kstate)) : list (cpval * kstate) :=
+  match l with
+  | [] => []
+  | x :: r => if existsb (fun y => oframe_eqb (fst x) (fst y) && kstate_eqb (snd x) (snd y)) r then dedup_vs r else x :: dedup_vs r
+  end.
+Fixpoint dedup_acc (l : list (SyntaxKind * frame)) : list (SyntaxKind * frame) :=
+  match l with
+  | [] => []
+  | x :: r => if existsb (fun y => sk_eqb (fst x) (fst y) && frame_eqb (snd x) (snd y)) r then dedup_acc r else x :: dedup_acc r
+  end.
+(** normalise: no duplicate states (keeps the sets small; the analysis is exponential otherwise) *)
+Definition knorm (o : kouts) : kouts :=
+  {| k_norm := dedup_vs (k_norm o); k_brk := dedup_k (k_brk o); k_ret := dedup_k (k_ret o); k_acc := dedup_acc (k_acc o) |}.
+
+Definition kenv_get (en : list cpval) (x : nat) : cpval := match nth_error en x with Some v => v | None => None end.
+Fixpoint kenv_set (en : list cpval) (x : nat) (v : cpval) : list cpval :=
   match x, en with
   | O, [] => [v]
   | O, _ :: r => v :: r
@@ -93,18 +125,17 @@ Fixpoint kenv_set (en : list (option frame)) (x : nat) (v : option frame) : list
   | S n, a :: r => a :: kenv_set r n v
   end.
 
-Definition add_top (st : kstate) (k : SyntaxKind) (n : nat) : kstate :=
-  match stk st with
-  | (k0, f) :: r => {| stk := (k0, fadd f k n) :: r; kenv := kenv st |}
-  | [] => st
-  end.
+(** children added to the open node are also recorded in the checkpoints taken at this depth *)
+Definition note (depth : nat) (e : frame) (en : list cpval) : list cpval :=
+  map (fun v => match v with Some (d, delta) => if Nat.eqb d depth then Some (d, fplus delta e) else v | None => None end) en.
 Definition plus_top (st : kstate) (e : frame) : kstate :=
   match stk st with
-  | (k0, f) :: r => {| stk := (k0, fplus f e) :: r; kenv := kenv st |}
+  | (k0, f) :: r => {| stk := (k0, fplus f e) :: r; kenv := note (List.length (stk st)) e (kenv st) |}
   | [] => st
   end.
+Definition add_top (st : kstate) (k : SyntaxKind) (n : nat) : kstate := plus_top st [(k, cap n)].
 
-Definition kprim (pr : prim) (st : kstate) : option (option frame * kstate * list (SyntaxKind * frame)) :=
+Definition kprim (pr : prim) (st : kstate) : option (cpval * kstate * list (SyntaxKind * frame)) :=
   match pr with
   | PStartNode k => Some (None, {| stk := (Some k, []) :: stk st; kenv := kenv st |}, [])
   | PFinishNode =>
@@ -112,12 +143,13 @@ Definition kprim (pr : prim) (st : kstate) : option (option frame * kstate * lis
       | (Some k, f) :: r => Some (None, add_top {| stk := r; kenv := kenv st |} k 1, [(k, f)])
       | _ => None
       end
-  | PCheckpoint => match stk st with (_, f) :: _ => Some (Some f, st, []) | [] => None end
+  | PCheckpoint => Some (Some (List.length (stk st), []), st, [])
   | PStartNodeAt x k =>
       match stk st with
       | (k0, f) :: r =>
-          let snap := match kenv_get (kenv st) x with Some sn => sn | None => [] end in   (* unknown checkpoint: wraps everything *)
-          Some (None, {| stk := (Some k, fminus f snap) :: (k0, snap) :: r; kenv := kenv st |}, [])
+          (* the children emitted since the checkpoint move into the new node; an unknown checkpoint wraps everything *)
+          let delta := match kenv_get (kenv st) x with Some (_, dl) => dl | None => f end in
+          Some (None, {| stk := (Some k, delta) :: (k0, fminus f delta) :: r; kenv := kenv st |}, [])
       | [] => None
       end
   | PErrorAndEat _ | PErrorAndRecover _ => Some (None, add_top st S_Error 1, [])   (* may wrap the token in an Error node *)
@@ -126,7 +158,7 @@ Definition kprim (pr : prim) (st : kstate) : option (option frame * kstate * lis
 
 Definition krun_all (f : kstate -> option kouts) (l : list kstate) : option kouts :=
   fold_right (fun st acc => match f st, acc with Some o, Some o' => Some (kouts_app o o') | _, _ => None end) (Some kouts_nil) l.
-Definition kbind (o : kouts) (k : option frame -> kstate -> option kouts) : option kouts :=
+Definition kbind (o : kouts) (k : cpval -> kstate -> option kouts) : option kouts :=
   fold_right (fun vs acc => match k (fst vs) (snd vs), acc with Some o1, Some o2 => Some (kouts_app o1 o2) | _, _ => None end)
              (Some {| k_norm := []; k_brk := k_brk o; k_ret := k_ret o; k_acc := k_acc o |}) (k_norm o).
 
@@ -134,28 +166,35 @@ Section Kids.
   Variable p : prog.
   Variable summ : nat -> list frame.          (* what a call of function f adds to the caller's open node *)
 
-  (** loop: [heads] = states at the loop head.  Every state reached after the condition is both an exit and an input of
-      the body (guards are ignored); iterate until no new head appears (counts saturate at 3, so this terminates) *)
-  Fixpoint kwiter (exc exb : kstate -> option kouts) (k : nat) (heads : list kstate) (acc : kouts) : option kouts :=
-    match k with
-    | O => None
-    | S k' =>
-        match krun_all exc heads with
+  (** loops are summarised, not unrolled: every kind whose count grows during one round (condition + body) gets the
+      saturated count 3 ("many") in ONE merged head state, which bounds every number of iterations from above *)
+  Definition sat_frame (base f' : frame) : frame :=
+    fold_left (fun acc kn => if Nat.ltb (fcount base (fst kn)) (snd kn) then fadd acc (fst kn) 3 else acc) f' base.
+  Definition saturate (st : kstate) (others : list kstate) : kstate :=
+    match stk st with
+    | (k0, f) :: r =>
+        {| stk := (k0, fold_left (fun acc s' => match stk s' with (_, f') :: _ => sat_frame acc f' | [] => acc end) others f) :: r;
+           kenv := kenv st |}
+    | [] => st
+    end.
+  Definition kloop (exc exb : kstate -> option kouts) (st : kstate) : option kouts :=
+    let pass (s0 : kstate) : option (kouts * list kstate) :=
+      match exc s0 with
+      | None => None
+      | Some oc =>
+          match krun_all exb (map snd (k_norm oc)) with
+          | None => None
+          | Some ob => Some (kouts_app oc ob, map snd (k_norm oc) ++ map snd (k_norm ob) ++ k_brk ob)
+          end
+      end in
+    match pass st with
+    | None => None
+    | Some (_, all1) =>
+        let m1 := saturate st all1 in
+        match pass m1 with
         | None => None
-        | Some oc =>
-            let post := dedup_k (map snd (k_norm oc)) in
-            match krun_all exb post with
-            | None => None
-            | Some ob =>
-                let next := dedup_k (map snd (k_norm ob)) in
-                let acc' := {| k_norm := k_norm acc ++ map (fun s => (None, s)) (post ++ k_brk ob); k_brk := [];
-                               k_ret := k_ret acc ++ k_ret oc ++ k_ret ob; k_acc := k_acc acc ++ k_acc oc ++ k_acc ob |} in
-                let fresh := filter (fun x => negb (existsb (kstate_eqb x) heads)) next in
-                match fresh with
-                | [] => Some acc'
-                | _ => kwiter exc exb k' (heads ++ fresh) acc'
-                end
-            end
+        | Some (o2, all2) =>
+            Some {| k_norm := [(None, saturate m1 all2)]; k_brk := []; k_ret := k_ret o2; k_acc := k_acc o2 |}
         end
     end.
 
@@ -188,18 +227,17 @@ Section Kids.
                   end
               end
           end
-      | ESeq a b => match kexec n a st with Some o => kbind o (fun _ s1 => kexec n b s1) | None => None end
+      | ESeq a b => match kexec n a st with
+                    | Some o => match kbind (knorm o) (fun _ s1 => kexec n b s1) with Some o' => Some (knorm o') | None => None end
+                    | None => None end
       | EIf c a b =>
           match kexec n c st with
-          | Some o => kbind o (fun _ s1 => match kexec n a s1, kexec n b s1 with
-                                           | Some o1, Some o2 => Some (kouts_app o1 o2) | _, _ => None end)
+          | Some o => match kbind (knorm o) (fun _ s1 => match kexec n a s1, kexec n b s1 with
+                                           | Some o1, Some o2 => Some (kouts_app o1 o2) | _, _ => None end) with
+                      | Some o' => Some (knorm o') | None => None end
           | None => None
           end
-      | EWhile c b =>
-          match kwiter (kexec n c) (kexec n b) n [st] kouts_nil with
-          | None => None
-          | Some o => Some {| k_norm := map (fun s => (None, s)) (dedup_k (map snd (k_norm o))); k_brk := []; k_ret := k_ret o; k_acc := k_acc o |}
-          end
+      | EWhile c b => match kloop (kexec n c) (kexec n b) st with Some o => Some (knorm o) | None => None end
       | EBreak => Some {| k_norm := []; k_brk := [st]; k_ret := []; k_acc := [] |}
       | EReturn a =>
           match kexec n a st with
@@ -264,4 +302,57 @@ Definition kid_table (p : prog) (fuel rounds : nat) : option (list (SyntaxKind *
   match krounds p fuel rounds (repeat [] (List.length (fns p))) with
   | Some (_, acc) => Some (dedup_kf acc)
   | None => None
+  end.
+
+(** * Conformance of a concrete node to a frame, and the coverage check *)
+Definition acc_kinds (a : string * list SyntaxKind * acc_mode) : list SyntaxKind := snd (fst a).
+Definition acc_mode_of (a : string * list SyntaxKind * acc_mode) : acc_mode := snd a.
+
+(** total count of the kinds [ks] in a frame; 3 (= unbounded) as soon as one of them is saturated or the sum reaches 3 *)
+Definition ftotal (f : frame) (ks : list SyntaxKind) : nat :=
+  cap (fold_left (fun acc kn => if kind_in (fst kn) ks then acc + snd kn else acc) f 0).
+Definition bound_le (n c : nat) : bool := Nat.leb 3 c || Nat.leb n c.
+
+(** every child node kind occurs in the frame, and for every accessor kind set the number of such children is
+    within the frame's total *)
+Definition node_conforms (f : frame) (t : tree) : bool :=
+  forallb (fun c => negb (Nat.eqb (fcount f (kind_of c)) 0)) (node_children t) &&
+  forallb (fun a => bound_le (List.length (of_kinds (acc_kinds a) (node_children t))) (ftotal f (acc_kinds a)))
+          (accessors_of (kind_of t)).
+
+Fixpoint kinds_same (a b : list SyntaxKind) : bool :=
+  match a, b with
+  | [], [] => true
+  | x :: a', y :: b' => sk_eqb x y && kinds_same a' b'
+  | _, _ => false
+  end.
+Definition has_nth (accs : list (string * list SyntaxKind * acc_mode)) (ks : list SyntaxKind) (j : nat) : bool :=
+  existsb (fun a => kinds_same (acc_kinds a) ks && match acc_mode_of a with ANth i => Nat.eqb i j | _ => false end) accs.
+(** a child of kind [k] of a node with frame [f] is returned by some accessor *)
+Definition reach (accs : list (string * list SyntaxKind * acc_mode)) (f : frame) (k : SyntaxKind) : bool :=
+  existsb (fun a =>
+             kind_in k (acc_kinds a) &&
+             match acc_mode_of a with
+             | AChildren => true
+             | AChild => Nat.leb (ftotal f (acc_kinds a)) 1
+             | ANth _ => Nat.ltb (ftotal f (acc_kinds a)) 3 &&
+                         forallb (has_nth accs (acc_kinds a)) (seq 0 (ftotal f (acc_kinds a)))
+             end) accs.
+Definition pair_in (x : SyntaxKind * SyntaxKind) (l : list (SyntaxKind * SyntaxKind)) : bool :=
+  existsb (fun y => sk_eqb (fst x) (fst y) && sk_eqb (snd x) (snd y)) l.
+Definition covers_frame (known : list (SyntaxKind * SyntaxKind)) (K : SyntaxKind) (f : frame) : bool :=
+  forallb (fun kn => Nat.eqb (snd kn) 0 || sk_eqb (fst kn) S_Error || pair_in (K, fst kn) known ||
+                     reach (accessors_of K) f (fst kn)) f.
+
+(** node kinds without an ast struct must not have child nodes at all *)
+Definition covers_all (known : list (SyntaxKind * SyntaxKind)) (tbl : list (SyntaxKind * frame)) : bool :=
+  forallb (fun kf => covers_frame known (fst kf) (snd kf)) tbl.
+
+(** a whole tree conforms: every node has a frame of the table it conforms to *)
+Fixpoint tree_conforms (tbl : list (SyntaxKind * frame)) (t : tree) : bool :=
+  match t with
+  | Tok _ _ => true
+  | Node k cs =>
+      existsb (fun kf => sk_eqb (fst kf) k && node_conforms (snd kf) t) tbl &&
+      (fix go (l : list tree) : bool := match l with [] => true | c :: r => tree_conforms tbl c && go r end) cs
   end.
